@@ -10,12 +10,25 @@ from harness import core
 from harness.core import gq, gbool, gstr, glist, gopt, gnat
 from harness import fr  # FRAME adapters
 
-HEADER = """From FrameModel Require Import Num.QcTac Geometry.Rect Cases.Cmp.
+HEADER = """From FrameModel Require Import Num.QcTac Geometry.Rect Cases.Cmp Geometry.RectHist.
 Open Scope Qc_scope."""
 
 ASSUMPTIONS = [
     "binary64 arithmetic of the implementation is exact on the generated dyadic inputs (checked by recomputation with Fractions in the oracle); rounded quotients are compared within k*2^-53 relative",
     "split_horizontal/vertical default: a negative cut coordinate means 'halve' (modelled as written)",
+    "translation tie (second tie, harness/translate_rect.py + harness/gen/RectGenOk.v.in): private helpers of the class are "
+    "translated on demand and inlined, the equality proofs case-split every comparison and close the cases by arithmetic, so "
+    "behaviour-preserving rewrites still check.  Rule: if the current source uses a construct the translator cannot express "
+    "(TranslationError) this is NOT a violation by itself - the evidence records 'translator: skipped (<reason>)', the "
+    "correspondence budget of the run is tripled, and a violation is reported only if the correspondence or the oracle fails; "
+    "a definition that was translated but is no longer proved equal to the model is reported (after the search for a failing input)",
+    "object histories (op 'hist'): a pool of real Rectangle objects; between ALL the compared methods the objects are written "
+    "in place (r.center.x = v, r.center.y += d, r.shape.w = v, r.shape.h = v), through the centre / shape setters and through "
+    "the fixed / hard / region setters; rectangles returned by split_*, split, __mul__ and rectangle_grid join the pool and are "
+    "written as well; after EVERY operation every object is read back and must equal the model's pool (Geometry/RectHist.v), "
+    "every method result must equal the model on the current values, and the oracle judges it on the values read back just "
+    "before the call.  duplicate() results (which share the Point and Shape objects of their source) and more than one cell of "
+    "a grid (the cells share one Shape object) are not taken into the pool",
 ]
 
 OPS = ["ov", "overlap", "inside", "touches", "inter", "eq", "pt", "split_h", "split_v",
@@ -121,19 +134,104 @@ def gen_case(rng):
     return case
 
 
+def gen_extra(rng):
+    """input classes the random stream reaches rarely or never: integer coordinates (Point / Shape built from Python
+    ints), rectangles left of / below the origin, straddling it or ending exactly at 0, region names that are prefixes
+    of each other, grids of 9, 10, 16, 100, 144, 256 cells, exact ties (overlap area equal to the area tolerance, gap equal
+    to the distance tolerance, smaller piece equal to the sliver bound)"""
+    kind = rng.choice(["ints", "negative", "negative", "regions", "biggrid", "tie"])
+    if kind == "biggrid":
+        r = gen_rect(rng)
+        n, m = rng.choice([(3, 3), (2, 5), (5, 2), (4, 4), (10, 10), (12, 12), (16, 16), (1, 100), (9, 1)])
+        return {"op": "grid", "r": r, "nrows": n, "ncols": m, "kind": "biggrid"}
+    if kind == "tie":
+        r = gen_rect(rng)
+        x0, x1 = r["cx"] - r["w"] / 2, r["cx"] + r["w"] / 2
+        y0, y1 = r["cy"] - r["h"] / 2, r["cy"] + r["h"] / 2
+        t = rng.choice(["aeps", "eps", "sliver-x", "sliver-y"])
+        if t == "aeps":         # common area exactly the area tolerance
+            e, g = F(rng.randrange(1, 5), 4), F(rng.randrange(1, 5), 4)
+            e, g = min(e, r["w"]), min(g, r["h"])
+            s = dict(gen_rect(rng), cx=x1 - e + 2, cy=y1 - g + 3, w=F(4), h=F(6), region=r["region"])
+            return {"op": "overlap", "r": r, "s": s, "eps": F(0), "aeps": e * g, "kind": "tie/aeps"}
+        if t == "eps":          # gap exactly the distance tolerance
+            e = rng.choice([F(1, 1024), F(1, 64), F(1, 4), F(1)])
+            s = dict(gen_rect(rng), cx=x1 + e + 1, cy=r["cy"], w=F(2), h=r["h"])
+            if rng.random() < 0.5:
+                s = dict(s, cy=y1 + e + s["h"] / 2)          # corner contact, gap e in both axes
+            return {"op": "touches", "r": r, "s": s, "eps": e, "aeps": F(0), "kind": "tie/eps"}
+        q = rng.choice([F(1, 128), F(1, 64), F(1, 4), F(1, 2)])
+        if t == "sliver-x":     # min(x - ll, ur - x) == ratio * h
+            d = q * r["h"]
+            return {"op": "xcut", "r": r, "x": rng.choice([x0 + d, x1 - d]), "ratio": q, "kind": "tie/sliver"}
+        d = q * r["w"]
+        return {"op": "ycut", "r": r, "x": rng.choice([y0 + d, y1 - d]), "ratio": q, "kind": "tie/sliver"}
+    case = gen_case(rng)
+    while case["op"] in ("bbox", "ar") and kind != "ints":
+        case = gen_case(rng)
+    rs = [k for k in ("r", "s") if k in case]
+    if kind == "ints":
+        m = 8
+        for k in rs:
+            case[k] = dict(case[k], **{f: case[k][f] * m for f in ("cx", "cy", "w", "h")})
+        for f in ("px", "py", "x"):
+            if f in case and (f != "x" or case["x"] >= 0):
+                case[f] = case[f] * m
+        if not all(core.frac(case[k][f]).denominator == 1 for k in rs for f in ("cx", "cy", "w", "h")):
+            return gen_extra(rng)
+        case["ints"] = True
+    elif kind == "negative":
+        r = case["r"]
+        how = rng.choice(["left", "straddle", "end-at-0", "start-at-0", "below"])
+        dx = {"left": r["cx"] + r["w"] + 3, "straddle": r["cx"], "end-at-0": r["cx"] + r["w"] / 2,
+              "start-at-0": r["cx"] - r["w"] / 2, "below": F(0)}[how]
+        dy = r["cy"] + r["h"] / 2 if how == "below" else rng.choice([F(0), r["cy"]])
+        for k in rs:
+            case[k] = dict(case[k], cx=case[k]["cx"] - dx, cy=case[k]["cy"] - dy)
+        if "px" in case:
+            case["px"], case["py"] = case["px"] - dx, case["py"] - dy
+        if "x" in case and case["x"] >= 0:
+            # the cut follows the rectangle; a cut that becomes negative means 'halve' (as written in the code)
+            case["x"] = case["x"] - (dy if case["op"] in ("split_v", "ycut") else dx)
+    else:
+        names = ["dsp", "dsp1", "ds", "d", "_", "__", "bram", "BRAM", "#"]
+        for k in rs:
+            case[k] = dict(case[k], region=rng.choice(names))
+    case["kind"] = case.get("kind", "") + "+" + kind
+    return case
+
+
+def mk_rect_c18(d, ints=False):
+    if not ints:
+        return fr.mk_rect(d)
+    from frame.geometry.geometry import Rectangle, Point, Shape
+    r = Rectangle(center=Point(int(d["cx"]), int(d["cy"])), shape=Shape(int(d["w"]), int(d["h"])),
+                  fixed=bool(d.get("fixed", False)), hard=bool(d.get("hard", False)), region=d.get("region", "_"))
+    loc = d.get("loc", "NOPOLY")
+    r.location = getattr(Rectangle.StogLocation, "NO_POLYGON" if loc == "NOPOLY" else loc)
+    return r
+
+
 def nontrivial(case):
     return case["op"] not in ("bbox",) or True
 
 
 # ---------------- implementation ----------------
 def run_impl(case):
+    if case["op"] == "hist":
+        return run_hist_impl(case)
+    r = mk_rect_c18(case["r"], case.get("ints", False))
+    s = mk_rect_c18(case["s"], case.get("ints", False)) if "s" in case else None
+    return exec_op(case, r, s)
+
+
+def exec_op(case, r, s, keep=None):
+    """run one compared method on the Rectangle objects r (and s); `keep` receives the returned rectangles"""
     from frame.geometry.geometry import Rectangle, Point
     op = case["op"]
-    r = fr.mk_rect(case["r"])
     Rectangle.undefine_epsilon()
     try:
         if op in ("ov", "overlap", "inside", "touches", "inter", "eq"):
-            s = fr.mk_rect(case["s"])
             Rectangle.set_epsilon(float(case["eps"]), float(case["aeps"]))
             if op == "ov":
                 return {"v": r.area_overlap(s), "v_sym": s.area_overlap(r)}
@@ -147,6 +245,8 @@ def run_impl(case):
                 return {"v": r == s}
             t = r * s
             u = s * r
+            if keep is not None:
+                keep.append(t)
             return {"v": None if t is None else fr.rect_obs(t), "v_sym": None if u is None else fr.rect_obs(u)}
         if op == "pt":
             return {"v": r.point_inside(Point(float(case["px"]), float(case["py"])))}
@@ -160,6 +260,8 @@ def run_impl(case):
                     a, b = r.split()
             except AssertionError:
                 return {"v": None}
+            if keep is not None:
+                keep.extend([a, b])
             return {"v": [fr.rect_obs(a), fr.rect_obs(b)], "parent_after": fr.rect_obs(r)}
         if op == "xcut":
             return {"v": r.x_cuttable(float(case["x"]), float(case["ratio"]))}
@@ -170,6 +272,8 @@ def run_impl(case):
                 g = r.rectangle_grid(case["nrows"], case["ncols"])
             except AssertionError:
                 return {"v": None}
+            if keep is not None:
+                keep.extend(g)
             return {"v": [fr.rect_obs(x) for x in g]}
         if op == "ar":
             return {"v": r.aspect_ratio}
@@ -188,6 +292,8 @@ def pow2(n):
 
 
 def to_coq(case, obs):
+    if case["op"] == "hist":
+        return hist_to_coq(case, obs)
     op = case["op"]
     R = fr.grect(case["r"])
     v = obs["v"]
@@ -266,7 +372,7 @@ def tiles_exact(pieces, parent, tol=F(0)):
     return None
 
 
-def oracle(case, obs):
+def oracle_one(case, obs):
     """None if the property holds on this case, else a description."""
     op = case["op"]
     r = case["r"]
@@ -377,25 +483,418 @@ def oracle(case, obs):
     return None
 
 
+
+
+# --------------------------------------------------------------------------
+# object histories: writes between all the compared reads
+# --------------------------------------------------------------------------
+FIELDS = {"cx": "FCx", "cy": "FCy", "w": "FW", "h": "FH"}
+PAIR_OPS = ("ov", "overlap", "inside", "touches", "inter", "eq")
+
+
+def q_params(rng, op, r, s=None):
+    """parameters of one compared method, chosen relative to the current geometry (as gen_case does)"""
+    d = {"op": op}
+    x0, x1 = r["cx"] - r["w"] / 2, r["cx"] + r["w"] / 2
+    y0, y1 = r["cy"] - r["h"] / 2, r["cy"] + r["h"] / 2
+    if op in PAIR_OPS:
+        d["eps"] = rng.choice([F(0), F(1, 1024), F(1, 64), F(1, 4), F(1)])
+        d["aeps"] = rng.choice([F(0), F(1, 1024), F(1, 16), F(1, 2), F(3)])
+    elif op == "pt":
+        d["px"] = rng.choice([x0, x1, r["cx"], x0 - F(1, 8), x1 + F(1, 8), x0 + F(1, 64), F(rng.randrange(0, 100), 8)])
+        d["py"] = rng.choice([y0, y1, r["cy"], y0 - F(1, 8), y1 + F(1, 8), y1 - F(1, 64), F(rng.randrange(0, 100), 8)])
+    elif op in ("split_h", "xcut"):
+        d["x"] = rng.choice([x0, x1, r["cx"], x0 + r["w"] / 4, x1 - r["w"] / 8, x0 - F(1, 4), x1 + F(1, 2), F(-1), F(0),
+                             x0 + r["w"] / 128, x0 + r["h"] / 128, x1 - r["h"] / 128, x0 + F(1, 64)])
+        d["ratio"] = rng.choice([F(1, 128), F(1, 64), F(1, 4), F(0), F(1, 2)])
+    elif op in ("split_v", "ycut"):
+        d["x"] = rng.choice([y0, y1, r["cy"], y0 + r["h"] / 4, y1 - r["h"] / 8, y0 - F(1, 4), y1 + F(1, 2), F(-1), F(0),
+                             y0 + r["h"] / 128, y0 + r["w"] / 128, y1 - r["w"] / 128, y0 + F(1, 64)])
+        d["ratio"] = rng.choice([F(1, 128), F(1, 64), F(1, 4), F(0), F(1, 2)])
+    elif op == "grid":
+        d["nrows"] = rng.choice([0, 1, 2, 3, 4, 5, 8])
+        d["ncols"] = rng.choice([0, 1, 2, 3, 4, 6, 8])
+    return d
+
+
+def derived_value(r, s, d, which):
+    """the generator's own idea of the rectangle a method returns (to keep track of the pool); None = none"""
+    x0, x1 = r["cx"] - r["w"] / 2, r["cx"] + r["w"] / 2
+    y0, y1 = r["cy"] - r["h"] / 2, r["cy"] + r["h"] / 2
+    base = dict(r, loc="NOPOLY")
+
+    def bx(a, b, c, e):
+        return dict(base, cx=(a + c) / 2, cy=(b + e) / 2, w=c - a, h=e - b)
+    op = d["op"]
+    if op == "split" :
+        op, cut = ("split_v", r["cy"]) if r["h"] > r["w"] else ("split_h", r["cx"])
+    else:
+        cut = d.get("x")
+        if cut is not None and cut < 0:
+            cut = r["cx"] if op == "split_h" else r["cy"]
+    if op == "split_h":
+        if not x0 < cut < x1:
+            return None
+        return bx(cut, y0, x1, y1) if which else bx(x0, y0, cut, y1)
+    if op == "split_v":
+        if not y0 < cut < y1:
+            return None
+        return bx(x0, cut, x1, y1) if which else bx(x0, y0, x1, cut)
+    if op == "inter":
+        if r["region"] != s["region"]:
+            return None
+        a0, a1 = s["cx"] - s["w"] / 2, s["cx"] + s["w"] / 2
+        b0, b1 = s["cy"] - s["h"] / 2, s["cy"] + s["h"] / 2
+        if min(x1, a1) - max(x0, a0) <= 0 or min(y1, b1) - max(y0, b0) <= 0:
+            return None
+        return bx(max(x0, a0), max(y0, b0), min(x1, a1), min(y1, b1))
+    if op == "grid":
+        n, m = d["nrows"], d["ncols"]
+        if n <= 0 or m <= 0 or which >= n * m:
+            return None
+        row, col = divmod(which, m)
+        return bx(x0 + col * r["w"] / m, y0 + row * r["h"] / n, x0 + (col + 1) * r["w"] / m, y0 + (row + 1) * r["h"] / n)
+    return None
+
+
+def gen_hist(rng):
+    r0 = gen_rect(rng, lattice=rng.random() < 0.85)
+    pool = [r0]
+    for _ in range(rng.choice([1, 1, 2, 3])):
+        pool.append(related(rng, rng.choice(pool))[1])
+    cur = [dict(r) for r in pool]
+    ops = []
+
+    def write(i, field, v, mech=None):
+        ops.append({"t": "set", "mech": mech or rng.choice(["attr", "iadd", "setter"]), "i": i, "f": field, "v": v})
+        cur[i][field] = v
+
+    def a_write():
+        i = rng.randrange(len(cur))
+        r = cur[i]
+        kind = rng.choices(["shift", "snap", "size", "flag", "same"], [4, 3, 3, 2, 1])[0]
+        if kind == "shift":
+            f = rng.choice(["cx", "cy"])
+            write(i, f, r[f] + F(rng.randrange(-8, 9), 4) + (F(1, rng.choice([64, 256])) if rng.random() < 0.2 else 0))
+        elif kind == "snap" and len(cur) > 1:
+            # put i against / onto j: edge contact, partial overlap, same centre
+            j = rng.choice([k for k in range(len(cur)) if k != i])
+            s = cur[j]
+            how = rng.choice(["east", "north", "overlap", "centre"])
+            if how == "east":
+                write(i, "cx", s["cx"] + s["w"] / 2 + r["w"] / 2)
+                if rng.random() < 0.5:
+                    write(i, "cy", s["cy"])
+            elif how == "north":
+                write(i, "cy", s["cy"] + s["h"] / 2 + r["h"] / 2)
+                if rng.random() < 0.5:
+                    write(i, "cx", s["cx"])
+            elif how == "overlap":
+                write(i, "cx", s["cx"] + s["w"] / 4)
+                write(i, "cy", s["cy"] - s["h"] / 4)
+            else:
+                write(i, "cx", s["cx"])
+                write(i, "cy", s["cy"])
+                if rng.random() < 0.5:
+                    write(i, "w", s["w"])
+                    write(i, "h", s["h"])
+        elif kind == "size":
+            f = rng.choice(["w", "h"])
+            write(i, f, rng.choice([r[f] / 2, r[f] * 2, r[f] + F(1, 4), F(rng.randrange(1, 20), 4)]))
+        elif kind == "flag":
+            t = rng.choice(["fixed", "hard", "region"])
+            v = rng.choice(["_", "dsp", "bram", "#"]) if t == "region" else rng.random() < 0.5
+            ops.append({"t": t, "i": i, "v": v})
+            cur[i][t] = v
+        else:
+            f = rng.choice(list(FIELDS))
+            write(i, f, r[f])                       # a write that changes nothing
+
+    def a_read(op=None):
+        op = op or rng.choice(OPS)
+        i = rng.randrange(len(cur))
+        j = rng.choice([k for k in range(len(cur)) if k != i] or [i])
+        d = q_params(rng, op, cur[i], cur[j])
+        d.update({"t": "q", "i": i})
+        if op in PAIR_OPS:
+            d["j"] = j
+        ops.append(d)
+        return d
+
+    def a_push():
+        op = rng.choice(["split_h", "split_v", "split", "inter", "grid"])
+        i = rng.randrange(len(cur))
+        j = rng.choice([k for k in range(len(cur)) if k != i] or [i])
+        d = q_params(rng, op, cur[i], cur[j])
+        if op == "grid":
+            d["nrows"], d["ncols"] = rng.choice([1, 2, 4]), rng.choice([1, 2, 4])     # exact cells only
+            which = rng.randrange(d["nrows"] * d["ncols"])
+        else:
+            which = int(rng.random() < 0.5)
+        d.update({"t": "push", "i": i, "which": which})
+        if op == "inter":
+            d["j"] = j
+            d["which"] = 0
+        ops.append(d)
+        v = derived_value(cur[i], cur[j], d, d["which"])
+        if v is not None:
+            cur.append(v)
+
+    template = rng.choice(["read-write-read", "read-write-read", "all-fields", "child", "random", "random"])
+    if template == "read-write-read":
+        # the same read before and after a write to one of its operands
+        d = a_read()
+        for _ in range(rng.choice([1, 1, 2])):
+            a_write()
+        ops.append(dict(d, **q_params(rng, d["op"], cur[d["i"]], cur[d.get("j", d["i"])]), t="q", i=d["i"],
+                        **({"j": d["j"]} if "j" in d else {})))
+    elif template == "all-fields":
+        i = rng.randrange(len(cur))
+        ops.append(dict(q_params(rng, "bbox", cur[i]), t="q", i=i))
+        for f in rng.sample(list(FIELDS), 4):
+            v = cur[i][f] + F(rng.randrange(1, 9), 4) if f in ("cx", "cy") else rng.choice([cur[i][f] / 2, cur[i][f] * 2])
+            write(i, f, v, rng.choice(["attr", "iadd"]) if rng.random() < 0.8 else "setter")
+            op = rng.choice(OPS)
+            j = rng.choice([k for k in range(len(cur)) if k != i] or [i])
+            d = q_params(rng, op, cur[i], cur[j])
+            d.update({"t": "q", "i": i})
+            if op in PAIR_OPS:
+                d["j"] = j
+                if rng.random() < 0.5:
+                    d["i"], d["j"] = j, i
+            ops.append(d)
+    elif template == "child":
+        # a returned rectangle and its parent are written independently
+        n0 = len(cur)
+        a_push()
+        if len(cur) > n0:
+            k = len(cur) - 1
+            p = ops[-1]["i"]
+            for who in rng.sample([k, p], 2):
+                f = rng.choice(list(FIELDS))
+                write(who, f, cur[who][f] + F(1, 2))
+                for t in (k, p):
+                    ops.append(dict(q_params(rng, "bbox", cur[t]), t="q", i=t))
+            ops.append(dict(q_params(rng, "ov", cur[k], cur[p]), t="q", i=k, j=p))
+        else:
+            a_write()
+            a_read()
+    else:
+        for _ in range(rng.randrange(4, 12)):
+            what = rng.choices(["w", "q", "p"], [4, 5, 1])[0]
+            a_write() if what == "w" else a_read() if what == "q" else a_push()
+        a_read()
+    return {"op": "hist", "pool": pool, "ops": ops, "template": template}
+
+
+def run_hist_impl(case):
+    from frame.geometry.geometry import Rectangle, Point, Shape
+    objs = [fr.mk_rect(d) for d in case["pool"]]
+    steps = []
+    for op in case["ops"]:
+        rec = {}
+        t = op["t"]
+        if t == "set":
+            r, f, v = objs[op["i"]], op["f"], float(op["v"])
+            tgt, attr = (r.center, {"cx": "x", "cy": "y"}[f]) if f in ("cx", "cy") else (r.shape, f)
+            if op["mech"] == "attr":
+                setattr(tgt, attr, v)
+            elif op["mech"] == "iadd":
+                setattr(tgt, attr, getattr(tgt, attr) + (v - getattr(tgt, attr)))
+            elif f in ("cx", "cy"):
+                r.center = Point(v, r.center.y) if f == "cx" else Point(r.center.x, v)
+            else:
+                r.shape = Shape(v, r.shape.h) if f == "w" else Shape(r.shape.w, v)
+        elif t in ("fixed", "hard", "region"):
+            setattr(objs[op["i"]], t, op["v"])
+        elif t in ("q", "push"):
+            keep = []
+            rec["res"] = exec_op(op, objs[op["i"]], objs[op["j"]] if "j" in op else None, keep)
+            if t == "push" and op["which"] < len(keep) and keep[op["which"]] is not None:
+                objs.append(keep[op["which"]])
+        else:
+            raise ValueError(t)
+        rec["post"] = [fr.rect_obs(r) for r in objs]
+        steps.append(rec)
+    return {"v": None, "steps": steps}
+
+
+def gquery(op):
+    i = gnat(op["i"])
+    j = gnat(op["j"]) if "j" in op else None
+    o = op["op"]
+    if o == "ov":
+        return f"QOv {i} {j}"
+    if o == "overlap":
+        return f"QOverlap {gq(op['aeps'])} {i} {j}"
+    if o == "inside":
+        return f"QInside {i} {j}"
+    if o == "touches":
+        return f"QTouches {gq(op['eps'])} {i} {j}"
+    if o == "inter":
+        return f"QInter {i} {j}"
+    if o == "eq":
+        return f"QEq {i} {j}"
+    if o == "pt":
+        return f"QPt {i} {gq(op['px'])} {gq(op['py'])}"
+    if o == "split_h":
+        return f"QSplitH {i} {gq(op['x'])}"
+    if o == "split_v":
+        return f"QSplitV {i} {gq(op['x'])}"
+    if o == "split":
+        return f"QSplit {i}"
+    if o == "xcut":
+        return f"QXcut {i} {gq(op['x'])} {gq(op['ratio'])}"
+    if o == "ycut":
+        return f"QYcut {i} {gq(op['x'])} {gq(op['ratio'])}"
+    if o == "grid":
+        return f"QGrid {i} {gnat(op['nrows'])} {gnat(op['ncols'])}"
+    if o == "ar":
+        return f"QAr {i}"
+    if o == "bbox":
+        return f"QBbox {i}"
+    raise ValueError(o)
+
+
+def gobs(op, res, cur):
+    o, v = op["op"], res["v"]
+    gr = lambda d: gopt(None if d is None else fr.grect(d))
+    if o == "ov":
+        return f"OQ2 {gq(v)} {gq(res['v_sym'])}"
+    if o in ("overlap", "touches"):
+        return f"OB2 {gbool(v)} {gbool(res['v_sym'])}"
+    if o in ("inside", "eq", "pt", "xcut", "ycut"):
+        return f"OB {gbool(v)}"
+    if o == "inter":
+        return f"ORect2 {gr(v)} {gr(res['v_sym'])}"
+    if o in ("split_h", "split_v", "split"):
+        return f"OPair {gopt(None if v is None else f'({fr.grect(v[0])}, {fr.grect(v[1])})')}"
+    if o == "grid":
+        r = cur[op["i"]]
+        lst = gopt(None if v is None else glist([fr.grect(x) for x in v]))
+        if pow2(op["nrows"]) and pow2(op["ncols"]):
+            return f"OList 0%Z (qc 1 1) {lst}"
+        scale = gq(abs(core.frac(r["cx"])) + abs(core.frac(r["cy"])) + core.frac(r["w"]) + core.frac(r["h"]))
+        return f"OList 16%Z {scale} {lst}"
+    if o == "ar":
+        return f"OQ {gq(v)}"
+    if o == "bbox":
+        return f"OBox {gq(v[0])} {gq(v[1])} {gq(v[2])} {gq(v[3])} {gq(v[4])} {fr.grect(res['dup'])}"
+    raise ValueError(o)
+
+
+def gderive(op):
+    i, o = gnat(op["i"]), op["op"]
+    if o == "split_h":
+        return f"DSplitH {i} {gq(op['x'])} {gbool(op['which'])}"
+    if o == "split_v":
+        return f"DSplitV {i} {gq(op['x'])} {gbool(op['which'])}"
+    if o == "split":
+        return f"DSplit {i} {gbool(op['which'])}"
+    if o == "inter":
+        return f"DInter {i} {gnat(op['j'])}"
+    if o == "grid":
+        return f"DGridCell {i} {gnat(op['nrows'])} {gnat(op['ncols'])} {gnat(op['which'])}"
+    raise ValueError(o)
+
+
+def hist_to_coq(case, obs):
+    steps = []
+    cur = case["pool"]
+    for op, rec in zip(case["ops"], obs["steps"]):
+        t = op["t"]
+        o = "ONone"
+        if t == "set":
+            g = f"GSet {'GSetter' if op['mech'] == 'setter' else 'GInPlace'} {gnat(op['i'])} {FIELDS[op['f']]} {gq(op['v'])}"
+        elif t == "fixed":
+            g = f"GFixed {gnat(op['i'])} {gbool(op['v'])}"
+        elif t == "hard":
+            g = f"GHard {gnat(op['i'])} {gbool(op['v'])}"
+        elif t == "region":
+            g = f"GRegion {gnat(op['i'])} {gstr(op['v'])}"
+        elif t == "q":
+            g = f"GQuery ({gquery(op)})"
+            o = gobs(op, rec["res"], cur)
+        else:
+            g = f"GPush ({gderive(op)})"
+        steps.append(f"({g}, {o}, {glist([fr.grect(d) for d in rec['post']])})")
+        cur = rec["post"]
+    return f"ghist_check {glist([fr.grect(d) for d in case['pool']])} {glist(steps)}"
+
+
+def hist_oracle(case, obs):
+    """every compared method of the history judged on the values read back just before the call"""
+    cur = case["pool"]
+    for k, (op, rec) in enumerate(zip(case["ops"], obs["steps"])):
+        if op["t"] in ("q", "push"):
+            sub = {key: val for key, val in op.items() if key not in ("t", "i", "j", "which")}
+            sub["r"] = cur[op["i"]]
+            if "j" in op:
+                sub["s"] = cur[op["j"]]
+            why = oracle_one(sub, rec["res"])
+            if why:
+                return f"operation {k} ({op['op']} on object {op['i']}" + (f", {op['j']}" if "j" in op else "") + f"): {why}"
+        cur = rec["post"]
+    return None
+
+
+def hist_shrink(case):
+    ops = case["ops"]
+    for k in range(len(ops)):
+        if ops[k]["t"] != "push" and len(ops) > 1:
+            yield dict(case, ops=ops[:k] + ops[k + 1:])
+    for k in range(1, len(ops)):
+        yield dict(case, ops=ops[:k])
+
+
+def oracle(case, obs):
+    if case["op"] == "hist":
+        return hist_oracle(case, obs)
+    return oracle_one(case, obs)
+
+
+def shrink(case):
+    if case["op"] == "hist":
+        yield from hist_shrink(case)
+
+
 def failure_key(case, why):
     return f"C18/{case['op']}"
 
 
 def translation_tie(ctx, out, pid="C18"):
     """Second tie to the source: re-translate the pure Rectangle methods from the repository's current
-    geometry.py into Gallina (harness/translate_rect.py, fail-closed) and let Coq prove each generated
-    definition equal to the hand-written model function (harness/gen/RectGenOk.v.in)."""
+    geometry.py into Gallina (harness/translate_rect.py, fail-closed; private helpers of the class are
+    translated on demand and inlined) and let Coq prove each generated definition equal to the
+    hand-written model function (harness/gen/RectGenOk.v.in; the scripts case-split every comparison and
+    close the cases by arithmetic, so a behaviour-preserving rewrite of a method still checks).
+
+    Rule (the differential correspondence is the tie of record):
+      * the source uses a construct the translator cannot express (TranslationError): NOT a violation by
+        itself - the evidence records `translator: skipped (<reason>)`, the caller triples the
+        correspondence budget of this run, and a violation is reported only if the correspondence or the
+        oracle fails;
+      * a definition that WAS translated but is no longer proved equal to the model is a disagreement
+        (a violation, after the usual search for a failing input).
+    Returns "proved", "skipped" or "failed"."""
     import shutil
     import subprocess
     from harness import translate_rect as tr
     d = ctx.work / "gen"
     d.mkdir(exist_ok=True)
-    res = {"methods": tr.METHODS, "translated": False, "proved_equal": False}
+    res = {"methods": tr.METHODS, "translated": False, "proved_equal": False, "translator": "ran"}
     try:
         text = tr.translate_file(core.REPO / "frame" / "geometry" / "geometry.py")
         (d / "RectGen.v").write_text(text)
         res["translated"] = True
-    except Exception as e:  # TranslationError or a syntax error in the source
+    except tr.TranslationError as e:
+        res["translator"] = f"skipped ({e})"
+        res["rule"] = ("the current source is outside the translator's subset: the translation tie is not applied in this run, "
+                       "the correspondence budget is tripled and decides alone")
+        out.extra["translation_tie"] = res
+        ctx.notes.append(f"{pid}: translator: skipped ({e}); correspondence budget tripled")
+        return "skipped"
+    except Exception as e:  # e.g. a syntax error in the source
         res["error"] = f"{type(e).__name__}: {e}"
     if res["translated"]:
         shutil.copy(core.VERIF / "harness" / "gen" / "RectGenOk.v.in", d / "RectGenOk.v")
@@ -416,17 +915,28 @@ def translation_tie(ctx, out, pid="C18"):
     if not res["proved_equal"]:
         out.disagreements.append({
             "key": f"{pid}/translation-tie", "explained": False,
-            "why": "the Rectangle methods re-translated from the current source are no longer proved equal to the model "
-                   "(or could not be translated): " + res.get("error", "")[:1500],
+            "why": "the Rectangle methods re-translated from the current source are no longer proved equal to the model: "
+                   + res.get("error", "")[:1500],
             "case": {"file": "frame/geometry/geometry.py", "lemmas": "harness/gen/RectGenOk.v.in"}})
+        return "failed"
+    return "proved"
 
 
 def run(ctx, out, replay=None):
-    translation_tie(ctx, out)
-    n = 3000 if ctx.quick() else 60000
+    # translator skipped: the correspondence budget is tripled (thorough tier: x1.5, to stay within its 15 minutes)
+    mult = (3 if ctx.quick() else 1.5) if translation_tie(ctx, out) == "skipped" else 1
+    n = int((3000 if ctx.quick() else 60000) * mult)
     out.rule = ("random Rectangle method calls on lattice/dyadic rectangles; pairs drawn by relative configuration "
                 "(identical, edge, corner, nested, crossing, sliver, far); distinct by canonical hash of the case; "
-                "non-trivial = every case (each exercises one modelled method with an outcome that depends on the geometry)")
+                "non-trivial = every case (each exercises one modelled method with an outcome that depends on the geometry).  "
+                "Extra stream: integer coordinates passed as Python ints, rectangles left of / below / straddling / ending exactly "
+                "at the origin, region names that are prefixes of each other, grids of 9..256 cells, exact ties (common area equal "
+                "to the area tolerance, gap equal to the distance tolerance, smaller piece equal to the sliver bound).  "
+                "Object histories: a pool of 2-4 related rectangles, 3-14 operations: the same read before and after a write to an "
+                "operand; all four fields of one object written in turn with a read after each; a returned rectangle and its parent "
+                "written independently; random mixes of writes (shift, snap against / onto another object, resize, flags, "
+                "value-preserving writes - by attribute, += or setter), reads (all 15 compared methods) and pushes of returned "
+                "rectangles")
     cases = []
     if replay and "case" in replay:
         cases.append(fr.unjson(replay["case"]))
@@ -434,5 +944,18 @@ def run(ctx, out, replay=None):
         cases.append(c)
     while len(cases) < n:
         cases.append(gen_case(ctx.rng))
+    xrng = __import__("random").Random(f"C18-extra-{ctx.seed}")
+    for _ in range(int((300 if ctx.quick() else 3000) * mult)):
+        cases.append(gen_extra(xrng))
+    nh = int((1200 if ctx.quick() else 12000) * mult)
+    hrng = __import__("random").Random(f"C18-hist-{ctx.seed}")
+    for _ in range(nh):
+        cases.append(gen_hist(hrng))
+    out.extra["history_cases"] = nh
+    for c in cases:
+        if c["op"] == "hist":
+            for op in c["ops"]:
+                out.count("hist-op:" + (op["op"] if op["t"] in ("q", "push") else op["t"] + ("/" + op["mech"] + "/" + op["f"] if op["t"] == "set" else "")))
     fr.run_cases(ctx, out, cases, run_impl, to_coq, oracle, failure_key, HEADER,
-                 dist_key=lambda c: c["op"] + ("/" + c["kind"] if "kind" in c else ""))
+                 dist_key=lambda c: c["op"] + ("/" + c["kind"] if "kind" in c else "") + ("/" + c["template"] if "template" in c else ""),
+                 shrink=shrink, shard=200)
